@@ -32,7 +32,10 @@ def rand_term(r, depth):
   if k < 0.5:
     return ['list', rand_term(r, depth - 1)]
   fs = [f for f in FIELDS + ['c', 1] if r.random() < 0.45]
-  return ['rec', r.random() < 0.4, [[f, rand_term(r, depth - 1)] for f in fs]]
+  items = [[f, rand_term(r, depth - 1)] for f in fs]
+  if len(items) >= 2 and r.random() < 0.25:     # two fields of the same type (built as ONE shared reference when ground)
+    items[-1][1] = items[0][1]
+  return ['rec', r.random() < 0.4, items]
 
 
 def rand_related(r, t, depth):
@@ -103,7 +106,16 @@ def build_ref(ra, t, r=None):
   return x
 
 
-def build_ref_plain(ra, t, r=None):
+def is_ground(t):
+  """Fully defined: nothing a later unification could refine (sharing such a sub-reference changes nothing)."""
+  if isinstance(t, str):
+    return t in ('Num', 'Str', 'Bool', 'Time')
+  if t[0] == 'list':
+    return is_ground(t[1])
+  return t[1] and all(is_ground(v) for _, v in t[2])
+
+
+def build_ref_plain(ra, t, r=None, shared=None):
   if isinstance(t, str):
     return ra.TypeReference(t)
   if t[0] == 'list':
@@ -113,11 +125,17 @@ def build_ref_plain(ra, t, r=None):
     return ra.TypeReference([build_ref(ra, e, r)])
   cls = ra.ClosedRecord if t[1] else ra.OpenRecord
   d = {}
+  local = {}            # ground, non-atomic field types seen in this record: the same reference object is used again
   for f, v in t[2]:
     if isinstance(v, str) and r is not None and r.random() < 0.3:
       d[f] = v
     else:
-      d[f] = build_ref(ra, v, r)
+      key = json.dumps(v)
+      if r is not None and not isinstance(v, str) and is_ground(v) and key in local and r.random() < 0.7:
+        d[f] = local[key]
+      else:
+        d[f] = build_ref(ra, v, r)
+        local[key] = d[f]
   return ra.TypeReference(cls(d))
 
 
@@ -157,17 +175,21 @@ def run_pair(ra, a, b, r=None):
     x, y = build_ref(ra, a, r), build_ref(ra, b, r)
     ra.Unify(x, y)
     rx, ry = read_back(ra, x), read_back(ra, y)
-    if rx != ry:
+
+    def same(u, v):
+      # a clash is a clash: where inside the term the BadType sits is not part of the statement
+      return u == v or (has_bad(u) and has_bad(v))
+    if not same(rx, ry):
       laws.append('the two sides read back different types: %s vs %s' % (rx, ry))
     ra.Unify(x, y)
-    if read_back(ra, x) != rx or read_back(ra, y) != ry:
+    if not same(read_back(ra, x), rx) or not same(read_back(ra, y), ry):
       laws.append('repeating the unification changed the result')
     ra.Unify(y, x)
-    if read_back(ra, x) != rx or read_back(ra, y) != ry:
+    if not same(read_back(ra, x), rx) or not same(read_back(ra, y), ry):
       laws.append('repeating the unification with swapped arguments changed the result')
     x2, y2 = build_ref(ra, a, r), build_ref(ra, b, r)
     ra.Unify(y2, x2)
-    if read_back(ra, x2) != rx:
+    if not same(read_back(ra, x2), rx):
       laws.append('argument order matters: Unify(a,b) gives %s, Unify(b,a) gives %s' % (rx, read_back(ra, x2)))
     if not has_bad(rx):
       if not (top_fields(a) | top_fields(b)) <= top_fields(rx) and isinstance(a, list) and isinstance(b, list) \
@@ -294,6 +316,8 @@ def run(tier, replay=None):
   ]
   ok, info = proof.proof_stage(rep, PID, extra_trusted=[
       'correspondence harness props/c16.py + Types/TypeCheck.v (judge)'])
+  if ok:
+    ok = coqrun.build(['theories/Types/TypeCheck.vo'])[0]     # the judges used by the correspondence run
   ra = impl()
   r = common.rng('c16')
 
